@@ -286,7 +286,58 @@ def rule_comparisons(ctx):
     rels = fx.variants("syntax_tree::fol::sigma_0::Relation")
     tab_ok, guard_ok, chain_ok = set(rels) == set(table), True, True
     detail = {}
+    # second spelling: the chain is taken apart by the existing iterator Comparison::individuals() (consecutive (lhs, relation, rhs) triples,
+    # an obligation of C06) and every triple is evaluated on its own
+    from .. import comp as _comp
+    from .c04 import _decide
+    _comp.use(fx)
+    cvn = _comp.canon(sym.Eval(fx, inline_depth=0).function(b, [node]))
+    via_individuals = None
+    if isinstance(cvn, tuple) and cvn[:2] == ("call", "Formula::conjoin") and len(cvn[2]) == 1 and isinstance(cvn[2][0], tuple) and cvn[2][0][:1] == ("coll",) and len(cvn[2][0][1]) == 1:
+        (srcs, alts_), = cvn[2][0][1]
+        if len(srcs) == 1 and srcs[0][:2] == ("call", "Comparison::individuals") and "$t" in repr(srcs[0]) and "$g" in repr(srcs[0]):
+            via_individuals = (srcs[0], alts_)
     for R in rels:
+        if via_individuals is not None:
+            src_, alts_ = via_individuals
+            triple = ("list", (T, C("Relation::" + R), RHS))
+            got = {}
+            for ts_, e_ in alts_:
+                rest, dead = [], False
+                for t_ in ts_:
+                    t2 = leaves.replace(t_, {("at", src_): triple})
+                    t2 = tuple(leaves.norm(x_) if isinstance(x_, tuple) else x_ for x_ in t2) if t2[0] in ("is", "cond", "eq") else t2
+                    d_ = _decide(t2)
+                    if d_ is False:
+                        dead = True
+                    elif d_ is None:
+                        rest.append(t2)
+                if dead:
+                    continue
+                whole_ = leaves.replace(e_, {("at", src_): triple})
+                for lts_, val_ in leaves.leaves(_comp.case_of_case(leaves.lift(whole_))):
+                    rest2, dead2 = list(rest), False
+                    for t_ in lts_:
+                        d_ = _decide(t_)
+                        if d_ is False:
+                            dead2 = True
+                        elif d_ is None:
+                            rest2.append(t_)
+                    if dead2:
+                        continue
+                    val_ = leaves.norm(leaves.strip_acc(val_))
+                    if val_[:2] == ("ctor", "Formula::AtomicFormula"):
+                        val_ = dict(val_[2])["0"]
+                    got.setdefault(tuple(sorted(set(rest2), key=leaves.stable_key)), []).append(val_)
+            eq = ("cond", ("bin", "Eq") + tuple(sorted((T, RHS), key=leaves.stable_key)), True)
+            ne = (eq[0], eq[1], False)
+            same, diff = got.get((eq,)), got.get((ne,))
+            detail[R] = {str(k): [sym.pretty(x)[:60] for x in v_] for k, v_ in got.items()}
+            if same != [C("AtomicFormula::" + table.get(R, "?"))]:
+                tab_ok = False
+            if diff != [C("AtomicFormula::Comparison", **{"0": C("Comparison", term=T, guards=("list", (C("Guard", relation=C("Relation::" + R), term=RHS),)))})] or len(got) != 2:
+                guard_ok = False
+            continue
         ev = sym.Eval(fx, inline_depth=0)
         ev.loop_args = [C("Guard", relation=C("Relation::" + R), term=RHS)]
         v = ev.function(b, [node])
@@ -317,6 +368,11 @@ def rule_comparisons(ctx):
             construct=detail if not guard_ok else None)
     v = sym.Eval(fx, inline_depth=0).function(b)
     ok = chain_ok and v[0] == "match" and v[2][-1] == ("_", F) and len(v[2]) == 2
+    if via_individuals is not None:
+        # every triple of the chain is kept (no filter on the source), and any other formula is returned as it is
+        other = leaves.norm(sym.Eval(fx, inline_depth=0).function(b, [("ctor", "Formula::UnaryFormula", (("connective", ("param", "$u")), ("formula", ("param", "$f"))))]))
+        outcomes = [v_ for _, v_ in leaves.leaves(other) if v_ != ("never",)]
+        ok = outcomes == [("ctor", "Formula::UnaryFormula", (("connective", ("param", "$u")), ("formula", ("param", "$f"))))]
     ctx.add("RW-1", "evaluate_comparisons:chain", ok, site, "a chain is rewritten into the conjunction of its consecutive comparisons (the right term becomes the next left term); other formulas are unchanged")
 
 
